@@ -11,7 +11,10 @@ def answer(node_by_pos, pos, nm):
     fl = getattr(n, 'flow', None)
     if fl is None:
         return 'E42'
-    names = fl.names_at((pos[0], pos[1]))
+    try:
+        names = fl.names_at((pos[0], pos[1]))
+    except RecursionError:
+        return 'RecursionError'       # an answer like any other: it must not depend on the history either
     vis = sorted(k for k in names if not k.startswith('__') and len(k) <= 3)
     sn = names.get(nm)
     if sn is None:
@@ -62,7 +65,7 @@ def main():
         e02 = {(d[2], d[3]) for d in diags or [] if d[0] == 'E02'}
         lint_hist = []
         for i, (ln, col, nm) in enumerate(sites if diags is not None else [], 1):
-            f = json.loads(fresh[i - 1]) if fresh[i - 1] != 'E42' else None
+            f = json.loads(fresh[i - 1]) if fresh[i - 1] not in ('E42', 'RecursionError') else None
             vis_fresh = f is not None and (f[1] is not None or nm in gnames)
             # answer in the same vocabulary: visible <=> no E02
             lint_hist.append([i, 'visible' if (ln, col) not in e02 else 'undefined', 'visible' if vis_fresh else 'undefined'])
